@@ -93,6 +93,7 @@ def run(ctx, build):
             main = gen.write_layout(f, lay)
             with common.quiet():
                 u = usid.USIDataset(main)
+                gen.Bystander.get(ctx.tmp).touch()
             exp = gc.expected_nd(lay)
             labels = lay.pos_labels + lay.spec_labels
             sizes = lay.pos_sizes + lay.spec_sizes
@@ -248,6 +249,31 @@ def run(ctx, build):
                         violate('USIDataset.slice', 'any', 'wrongly_typed_request_accepted', '%s ndim_form=%s' % (label, ndf), {'request': label})
                     except Exception:
                         pass
+    # ---- designed, seed-independent (exact oracle only): a dimension of 1100 points and two index arrays of 1050 entries that share
+    # their first and last entries and differ in the middle, asked of the SAME object one after the other, eager and lazy
+    hist['long_index_array_requests'] = 0
+    lay = gen.Layout([1100], [0], [2, 2], [1, 0])
+    with h5py.File(path, 'w') as f:
+        main = gen.write_layout(f, lay)
+        with common.quiet():
+            u = usid.USIDataset(main)
+        data = main[()]
+        lab = lay.pos_labels[0]
+        full = np.arange(1100)
+        for lazy in (False, True):
+            for hole in (500, 600, 17):
+                sel = np.concatenate([full[:hole], full[hole + 50:]])
+                hist['long_index_array_requests'] += 1
+                desc = {'layout': lay.describe(), 'slice_dict': '{%r: arange(1100) without %d..%d}' % (lab, hole, hole + 49), 'lazy': lazy,
+                        'history': 'same object, previous request differed only in the middle of the array'}
+                try:
+                    with common.quiet():
+                        got, ok = u.slice({lab: sel}, ndim_form=False, lazy=lazy)
+                    got = np.asarray(got.compute() if lazy else got)
+                    if got.shape != (1050, lay.M) or not np.array_equal(got, data[sel, :]):
+                        violate('USIDataset.slice (2-D)', 'any', 'selected_elements_wrong', str(desc), desc)
+                except Exception as e:
+                    violate('USIDataset.slice (2-D)', 'any', 'valid_request_raises', '%r %s' % (e, desc), desc)
     b1, e1 = common.coq_eval_cases(ctx, HEADER, acases, 'check07a', case_type='case07a', per_file=150, tag='a')
     b2, e2 = common.coq_eval_cases(ctx, HEADER, bcases, 'check07b', case_type='case07b', per_file=150, tag='b')
     out.corr_error = e1 or e2
